@@ -462,6 +462,9 @@ class Pipeline:
     def _kwargs(self, session, t):
         turn = session.turns[t]
         user = {"role": "user", "content": turn["user"]}
+        if turn.get("start_event") is not None:
+            # opt-in turn key (C02): the turn is started by an EVENT message ({"type": ..., ...}) instead of a user message
+            user = {"role": "event", "event": json.loads(json.dumps(turn["start_event"]))}
         kw = {}
         if self.v == 1:
             if not hasattr(session, "snap"):
